@@ -1,9 +1,9 @@
-\* exhaustive design model, ExtendedLSR of 1..2 terms, <= 2 calls
+\* quick: exhaustive design model, ExtendedLSR of 1..2 terms over 2 reactions, <= 2 calls
 SPECIFICATION Spec
 CONSTANTS
   Slopes <- MCSlopes2
   Icpts <- MCIcpts2
-  Energies <- MCEnergies2
+  Energies <- MCEnergies1
   Temps = {250, 500}
   MaxN = 2
   MaxOps = 2
